@@ -87,7 +87,7 @@ def assemble(ctx, kind, v, body, seg_meta=0, direction=None, pdu_type=0):
 def build(ctx, kind, cfg, var=None):
     var = dict(var or {})
     idw, seqw, crc, large = cfg
-    conf, v = sym_conf(ctx, idw, seqw, crc=crc, large=large)
+    conf, v = sym_conf(ctx, idw, seqw, crc=crc, large=large, plain=bool(var.pop("plain", False)))
     before = conf_snapshot(conf)
     n = fss(cfg)
     fmax = (1 << (8 * n)) - 1
@@ -151,8 +151,9 @@ def build(ctx, kind, cfg, var=None):
         ck = ctx.int("checksum_type", 0, 15)
         ctx.assume(member(ck, CHECKSUM_TYPES))
         size = ctx.int("file_size", 0, fmax)
-        src = None if s1 is None else ctx.text("src_name", s1)
-        dst = None if s2 is None else ctx.text("dst_name", s2)
+        # a str instead of a shape: that literal name (names are opaque text to CFDP: they travel verbatim)
+        src = None if s1 is None else (s1 if isinstance(s1, str) else ctx.text("src_name", s1))
+        dst = None if s2 is None else (s2 if isinstance(s2, str) else ctx.text("dst_name", s2))
         opts, oref, oinfo = None, [], []
         if nopts is not None:
             opts = []
@@ -286,7 +287,9 @@ def variants(kind, tier):
     if kind == "metadata":
         out = [("names11", dict(src=(1,), dst=(1,))), ("nonames", dict(src=None, dst=None)), ("empty-names", dict(src=(), dst=())),
                ("utf8", dict(src=(2,), dst=(1, 1))), ("opts0", dict(nopts=0)), ("opts1", dict(nopts=1, optlen=1)), ("opts2", dict(nopts=2)),
-               ("opts1-empty", dict(nopts=1, optlen=0)), ("opts2-last-empty", dict(nopts=2, optlens=(2, 0)))]
+               ("opts1-empty", dict(nopts=1, optlen=0)), ("opts2-last-empty", dict(nopts=2, optlens=(2, 0))),
+               ("lit-paths", dict(src="/data/incoming/", dst="./a//b/./c")), ("lit-odd", dict(src=" ", dst="..")),
+               ("lit-more", dict(src="C:\\x\\", dst="~/f/../g/"))]
         if t:
             out += [("utf8-3", dict(src=(3,), dst=(1, 2))), ("opts3", dict(nopts=3)), ("opts2-long", dict(nopts=2, optlen=4)),
                     ("names3-opts1", dict(src=(1, 1, 1), dst=(4,), nopts=1, optlen=0))]
